@@ -9,19 +9,25 @@ Model:  AgVerif.DomLT.domLT   = transliteration of `dom_lt` (graph.py:352-412), 
 `IsDomTree g t` (Model/DomRef.lean) says: t(entry) = none, t(v) = none for unreachable v, and t(v) is
 the immediate dominator of every other reachable v, by the textbook definition.
 
-STATUS (honest): everything about the specification, the reference and the checker is proved for ALL
-well-formed graphs.  The Lengauer–Tarjan correctness theorem itself (`domlt_correct_full`) is NOT
-proved; what is proved about the model of `dom_lt` is `domLT_certified` (whenever the verified checker
-accepts the model's answer, the answer is the dominator tree), the shape of the result, and the
-facts about its DFS.  The gap is exactly "dom_lt never produces a tree that `checkDomTree` rejects";
-the harness runs the checker on every graph it compares, so every compared answer is certified.
+STATUS: everything is proved for ALL well-formed graphs, including the Lengauer–Tarjan correctness
+theorem for the line-by-line model of `dom_lt`: `domlt_correct` (the model terminates without
+`KeyError`/`UnboundLocalError`/fuel exhaustion and returns the dominator tree).  Intermediate layers,
+also stated here: `domlt_dfs_is_dtree` (Step 1 leaves a DFS tree with the forward-edge and interval
+properties), `domlt_eval_spec` (`_eval` with path compression returns a minimum-`semi` vertex among the
+linked tree ancestors), `domlt_semi_is_sdom` (after Steps 2–3 `semi[v]` is the number of the
+semidominator: Theorem 4 of the 1979 paper), `domlt_total`, and `domLT_always_certified` (the verified
+checker never rejects the model's answer).  The proofs are in Proof/DomLT_{Tree,Semi,Thm,Dfs2,Eval,
+Loop,Loop3,Iter,Final}.lean.  What remains outside Lean is the tie between model and Python code
+(correspondence harness): Python iterates `pred[w]`/pops `bucket[pw]` in hash order, the model in
+insertion order.
 -/
 import AgVerif.Proof.DomRef
 import AgVerif.Proof.DomLT
+import AgVerif.Proof.DomLT_Final
 namespace AgVerif.C18
 open AgVerif AgVerif.Spec AgVerif.DomRef AgVerif.DomLT
 
-/-- FULL STATEMENT (not proved — stretch goal): on every well-formed graph `dom_lt` terminates without
+/-- FULL STATEMENT (proved below: `domlt_correct`): on every well-formed graph `dom_lt` terminates without
     error and returns the dominator tree: `None` for the entry, the immediate dominator for every other
     reachable node, no key for unreachable nodes. -/
 def domlt_correct_full : Prop :=
@@ -171,6 +177,85 @@ theorem domlt_correct_of_always_certified
   obtain ⟨r, hr, hc⟩ := hgap g hwf
   exact ⟨r, hr, domLT_certified g hwf r hr hc⟩
 
+/-! ### Lengauer–Tarjan correctness of the model of `dom_lt`, for all well-formed graphs -/
+
+/-- Step 1 leaves a DFS tree: numbering injective on exactly the reachable vertices, `parent` a
+    spanning tree of edges with increasing numbers, an edge to a larger number goes to a tree
+    descendant, and the numbers between a parent and its child belong to descendants of the parent. -/
+theorem domlt_dfs_is_dtree (g : Digraph) (f : Nat) (s : St) (n : Nat) (h : dfs g f = some (s, n)) :
+    DTree g.Edge g.entry s.semi s.parent :=
+  dfs_dtree g f s n h
+
+/-- `_eval(v)` (with `_compress`): when the link–eval forest invariant holds at level `i` (vertices
+    numbered above `i` linked, `label` = a minimum-`semi` vertex of the compressed tree segment), the
+    call returns without `KeyError` with fuel `> num v`, keeps the invariant, changes nothing but
+    `ancestor`/`label`, and returns `v` if `v` is a root of the forest, otherwise a vertex of minimum
+    `semi` among the linked tree ancestors of `v` (the forest ancestors of `v` below its root). -/
+theorem domlt_eval_spec (g : Digraph) (f0 : Nat) (s0 : St) (n : Nat) (h : dfs g f0 = some (s0, n))
+    (i f : Nat) (s : St) (v : Nat) (hF : FInv s0.semi s0.parent i s) (hv : s0.semi v ≠ 0)
+    (hf : s0.semi v < f) :
+    ∃ s' u, eval f s v = some (s', u) ∧ FInv s0.semi s0.parent i s' ∧ Same s s' ∧
+      ((s0.semi v ≤ i ∧ u = v) ∨
+       (i < s0.semi v ∧ i < s0.semi u ∧ Anc s0.parent u v ∧
+        ∀ z, Anc s0.parent z v → i < s0.semi z → s.semi u ≤ s.semi z)) :=
+  eval_spec (dfs_dtree g f0 s0 n h) i f s v hF hv hf
+
+/-- Steps 2–3 are total on well-formed graphs (no `KeyError`, no unbound `y`, the fuel suffices) and
+    afterwards `semi[v]` is the DFS number of the semidominator of `v`, for every reachable `v` other
+    than the entry (Theorem 4 of the paper). -/
+theorem domlt_semi_is_sdom (g : Digraph) (hwf : g.WF) (s : St) (n : Nat)
+    (h : dfs g (dfsFuel g) = some (s, n)) :
+    ∃ s1, steps23 (g.n + 1) n s none = some s1 ∧
+      ∀ v, v ≠ g.entry → Reach g.Edge g.entry v →
+        ∃ sv, IsSemi g.Edge s.semi sv v ∧ s1.semi v = s.semi sv := by
+  obtain ⟨s1, h1, hL⟩ := steps23_total hwf h
+  refine ⟨s1, h1, ?_⟩
+  intro v hne hr
+  have C := ctx_of_dfs hwf h
+  have hv0 : s.semi v ≠ 0 := (C.facts.semi_reach v).mpr hr
+  have hv1 : s.semi v ≠ 1 := fun e =>
+    hne (C.tree.inj v g.entry hv0 (by rw [e, C.facts.entry_one]))
+  exact hL.core.semi_hi v (by omega)
+
+/-- the model of `dom_lt` terminates without error on every well-formed graph -/
+theorem domlt_total (g : Digraph) (hwf : g.WF) : ∃ r, domLT g = some r := by
+  obtain ⟨r, h, _⟩ := domLT_correct g hwf
+  exact ⟨r, h⟩
+
+/-- LENGAUER–TARJAN CORRECTNESS: the full statement holds. -/
+theorem domlt_correct : domlt_correct_full := by
+  intro g hwf
+  obtain ⟨r, h1, h2, h3, h4⟩ := domLT_correct g hwf
+  exact ⟨r, h1, h2, fun v _ hne hr => h3 v hne hr, fun v _ hr => h4 v hr⟩
+
+/-- the same with the decidable well-formedness check as hypothesis -/
+theorem domlt_correct_wfb (g : Digraph) (hwf : g.wfb = true) :
+    ∃ r, domLT g = some r ∧ IsDomTree g r.idom := by
+  obtain ⟨r, h1, h2, h3, h4⟩ := domLT_correct g (Rpo.wf_of_wfb hwf)
+  refine ⟨r, h1, ?_⟩
+  intro v _
+  constructor
+  · rintro (hv | hv)
+    · simp [Result.idom, hv, h2]
+    · simp [Result.idom, h4 v hv]
+  · intro hne hr
+    obtain ⟨d, hd, hi⟩ := h3 v hne hr
+    exact ⟨d, by simp [Result.idom, hd], hi⟩
+
+/-- the verified certificate checker never rejects the answer of the model of `dom_lt` -/
+theorem domLT_always_certified (g : Digraph) (hwf : g.WF) :
+    ∃ r, domLT g = some r ∧ checkDomTree g r.idom = true := by
+  obtain ⟨r, h1, h2, h3, h4⟩ := domLT_correct g hwf
+  refine ⟨r, h1, (checkDomTree_iff g hwf r.idom).mpr ?_⟩
+  intro v _
+  constructor
+  · rintro (hv | hv)
+    · simp [Result.idom, hv, h2]
+    · simp [Result.idom, h4 v hv]
+  · intro hne hr
+    obtain ⟨d, hd, hi⟩ := h3 v hne hr
+    exact ⟨d, by simp [Result.idom, hd], hi⟩
+
 /-! ### non-vacuity -/
 
 /-- the graph of the Lengauer–Tarjan paper used in tests/test_decompiler_dominator.py (r=0, a=1 … l=12) -/
@@ -190,5 +275,14 @@ def irr : Digraph :=
 example : ((domLT irr).map fun r => (List.range 4).map r.idom) = some [none, some 0, some 0, some 1] := by decide
 example : IsDomTree irr (fun v => [none, some 0, some 0, some 1].getD v none) :=
   (cert_sound_complete irr (Rpo.wf_of_wfb (by decide)) _).mp (by decide)
+/-- the hypotheses of the correctness theorem are satisfiable: it applies to both graphs (one with a
+    cycle through the entry, one irreducible with a self loop, a catch edge and … no unreachable node) -/
+example : ∃ r, domLT tarjan = some r ∧ IsDomTree tarjan r.idom := domlt_correct_wfb tarjan (by decide)
+example : ∃ r, domLT irr = some r ∧ IsDomTree irr r.idom := domlt_correct_wfb irr (by decide)
+/-- a graph with an unreachable node 2 (and an edge from it into the reachable part) -/
+def unr : Digraph := { n := 3, entry := 0, edges := [[1], [0], [1]], catchEdges := [[], [], []] }
+example : ∃ r, domLT unr = some r ∧ IsDomTree unr r.idom := domlt_correct_wfb unr (by decide)
+example : ((domLT unr).map fun r => (List.range 3).map r.dom) = some [some none, some (some 0), none] := by
+  decide
 
 end AgVerif.C18
